@@ -10,24 +10,29 @@
 (*  * every generation that is applied rewrites `exception_aliases.py` of  *)
 (*    the core package it was told to use;                                 *)
 (*  * `.exception_registry.json` (client package -> status codes) is only  *)
-(*    consulted when `_is_shared_core` says so, and that is a test on the  *)
-(*    PATH of the core directory:                                          *)
-(*        core_dir.parent == project_root \/ core_dir.parent.parent == root*)
-(*    i.e. the core package is one or two packages deep;                   *)
+(*    consulted when `_is_shared_core(core_dir, client_package)` says so.  *)
+(*    Since /repo 107e76a that is a test on the PACKAGE NAMES: the core is *)
+(*    private exactly when it is the client package or a sub-package of it *)
+(*    (the embedded layout), every other core - sibling, top-level, nested *)
+(*    any number of packages deep - is shared and keeps the registry.      *)
+(*    (Before 107e76a it was a test on the directory depth,                *)
+(*    core_dir.parent == root \/ core_dir.parent.parent == root, which      *)
+(*    missed a shared core three packages deep: findings C11-F1..F4.)      *)
 (*  * `if not force and out_dir.exists()` generates into a temp tree and   *)
 (*    only compares - the project itself is never written on that path     *)
 (*    (the step is "not applied", whether the comparison raises or not).   *)
 (*                                                                         *)
 (* depth = 0 stands for the embedded layout (no core_package argument:     *)
 (* every client has its private `<client>.core`), depth d >= 1 for one     *)
-(* shared core package d packages deep (`core`, `a.core`, `a.b.core`).     *)
+(* shared core package d packages deep (`core`, `a.core`, `a.b.core`,      *)
+(* `a.b.c.core`).                                                          *)
 (***************************************************************************)
 EXTENDS Naturals, FiniteSets, Sequences
 
 CONSTANTS
   Clients,    \* set of client identities (strings)
   CodeSets,   \* the sets of declared error statuses a generated spec may have (a set of sets of ints)
-  Depths,     \* core depths explored (subset of 0..3)
+  Depths,     \* core depths explored (subset of 0..4)
   MaxLen      \* histories have at most MaxLen generate calls
 
 VARIABLES
@@ -45,9 +50,10 @@ Codes == UNION CodeSets
 Range(f) == {f[x] : x \in DOMAIN f}
 NoRegistry == [x \in {} |-> {}]
 
-\* exceptions_emitter.py:_is_shared_core - hops from the core directory's parent up to the project root
-ParentHops(d) == d - 1
-SharedDetected(d) == d >= 1 /\ (ParentHops(d) = 0 \/ ParentHops(d) = 1)
+\* exceptions_emitter.py:_is_shared_core - core_package == client_package \/ core_package starts with client_package + "."
+\* In the layouts of this model that is the case exactly for the embedded layout (`<client>.core`), at any package depth.
+CoreInsideClient(d) == d = 0
+SharedDetected(d) == ~CoreInsideClient(d)
 
 \* client_generator.py: `if not force and out_dir.exists(): <temp tree + diff>` else direct generation
 Applied(c, force) == force \/ c \notin generated
